@@ -137,7 +137,7 @@ func (annotStream) Generate(rng *rand.Rand, tier string, emit func(Case)) {
 			ann["x"] = ""
 		case 3:
 			if k, err := cdi.AnnotationKey(plugin, dev); err == nil {
-				ann[k] = "a.com/b=c"
+				ann[k] = []string{"a.com/b=c", "", " ", "unqualified"}[rng.Intn(4)] // a used key is used whatever its value
 			}
 			ann["zz"] = "1"
 		}
